@@ -601,5 +601,5 @@ MANIFEST_ENTRY = {
     "levels, full cartesian product, default level 0, de-duplication, verified fill, early exit = [FCFS]. Each is a necessary condition for the list to be exactly "
     "the greedy-stable assignments; membership of the optimal and FCFS notations follows from C02/C01 by the Grundy lemma.",
     "note": "Trusted: the first-fit/Grundy lemma, itertools semantics. Not decided: cost for groups larger than 8; order of the list is C14's business.",
-    "technique": "static analysis: idiom-family shape rules with def-use roles over the ast, order-type truth table of the conflict test",
+    "technique": "static analysis: truth table over every order type of <= 4 stems - all_dot_brackets is interpreted from the ast (nothing of the library is imported or run) and its list compared with the set of Grundy colourings; every statement of the function must be reached by these classes, otherwise (size caps ...) the idiom-family shape rules with def-use roles decide",
 }
